@@ -46,12 +46,13 @@ impl Default for Metadata {
 
 impl Metadata {
     pub fn new() -> Self {
+        #[cfg(not(feoxdb_verif))]
         let now = std::time::SystemTime::now()
             .duration_since(std::time::UNIX_EPOCH)
             .unwrap_or_else(|_| std::time::Duration::from_secs(0))
             .as_secs();
         #[cfg(feoxdb_verif)]
-        let now = crate::verif::now_secs().unwrap_or(now);
+        let now = crate::verif::wall_nanos() / 1_000_000_000;
 
         let mut metadata = Self {
             signature: *FEOX_SIGNATURE,
